@@ -53,11 +53,11 @@ func (dc *DocumentChunker) ChunkDocument(doc *model.Document) *ChunkCollection {
 	// Build section context from headings
 	toc := doc.TableOfContents()
 	currentSection := []string{}
-	currentHeadingLevel := 0
+	currentLevels := []int{}
 
 	// Process each page
 	for _, page := range doc.Pages {
-		pageChunks := dc.chunkPage(page, docTitle, &currentSection, &currentHeadingLevel, toc, &chunkIndex)
+		pageChunks := dc.chunkPage(page, docTitle, &currentSection, &currentLevels, toc, &chunkIndex)
 		chunks = append(chunks, pageChunks...)
 	}
 
@@ -70,7 +70,7 @@ func (dc *DocumentChunker) ChunkDocument(doc *model.Document) *ChunkCollection {
 }
 
 // chunkPage chunks a single page
-func (dc *DocumentChunker) chunkPage(page *model.Page, docTitle string, currentSection *[]string, currentHeadingLevel *int, toc []model.TOCEntry, chunkIndex *int) []*Chunk {
+func (dc *DocumentChunker) chunkPage(page *model.Page, docTitle string, currentSection *[]string, currentLevels *[]int, toc []model.TOCEntry, chunkIndex *int) []*Chunk {
 	var chunks []*Chunk
 
 	if page == nil {
@@ -100,7 +100,7 @@ func (dc *DocumentChunker) chunkPage(page *model.Page, docTitle string, currentS
 
 				// Update section path
 				headingLevel := getHeadingLevel(e.Text, toc, page.Number)
-				updateSectionPath(currentSection, currentHeadingLevel, headingLevel, e.Text)
+				pushSection(currentSection, currentLevels, headingLevel, e.Text)
 
 				// Create heading chunk
 				chunk := dc.createHeadingChunk(e.Text, docTitle, *currentSection, headingLevel, page.Number, chunkIndex)
@@ -120,7 +120,7 @@ func (dc *DocumentChunker) chunkPage(page *model.Page, docTitle string, currentS
 			flushTextBlock()
 
 			// Update section path
-			updateSectionPath(currentSection, currentHeadingLevel, e.Level, e.Text)
+			pushSection(currentSection, currentLevels, e.Level, e.Text)
 
 			// Create heading chunk
 			chunk := dc.createChunkFromHeading(e, docTitle, *currentSection, page.Number, chunkIndex)
@@ -436,23 +436,39 @@ func getHeadingLevel(text string, toc []model.TOCEntry, pageNum int) int {
 	return 1 // Default to level 1
 }
 
-// updateSectionPath updates the section path based on heading level
-func updateSectionPath(sectionPath *[]string, currentLevel *int, newLevel int, headingText string) {
+// pushSection enters a heading of the given level: headings of the same or a deeper
+// level are left, and the new heading becomes the innermost section. sectionLevels
+// holds the level of each entry of sectionPath, so that skipped levels (an H3
+// directly under an H1) nest correctly. Fresh slices are built on every call,
+// because chunks created earlier keep referring to the previous path.
+func pushSection(sectionPath *[]string, sectionLevels *[]int, newLevel int, headingText string) {
 	headingText = strings.TrimSpace(headingText)
 
-	if newLevel <= *currentLevel {
-		// Pop sections until we're at the right level
-		for len(*sectionPath) >= newLevel {
-			if len(*sectionPath) > 0 {
-				*sectionPath = (*sectionPath)[:len(*sectionPath)-1]
-			} else {
-				break
-			}
-		}
+	keep := len(*sectionPath)
+	if len(*sectionLevels) < keep {
+		keep = len(*sectionLevels)
+	}
+	for keep > 0 && (*sectionLevels)[keep-1] >= newLevel {
+		keep--
 	}
 
-	// Add new section
-	*sectionPath = append(*sectionPath, headingText)
+	path := make([]string, 0, keep+1)
+	path = append(path, (*sectionPath)[:keep]...)
+	levels := make([]int, 0, keep+1)
+	levels = append(levels, (*sectionLevels)[:keep]...)
+
+	*sectionPath = append(path, headingText)
+	*sectionLevels = append(levels, newLevel)
+}
+
+// updateSectionPath updates the section path based on heading level, for a path
+// whose i-th entry is a heading of level i+1.
+func updateSectionPath(sectionPath *[]string, currentLevel *int, newLevel int, headingText string) {
+	levels := make([]int, len(*sectionPath))
+	for i := range levels {
+		levels[i] = i + 1
+	}
+	pushSection(sectionPath, &levels, newLevel, headingText)
 	*currentLevel = newLevel
 }
 
